@@ -70,6 +70,28 @@ class _Uninit:
 UNINIT = _Uninit()
 
 
+class _DeadArm:
+    """what a member of a union arm holds after a different arm of the same union object was stored to"""
+    def __repr__(self): return 'DEAD-UNION-ARM'
+DEADARM = _DeadArm()
+
+
+def int_to_f32(n):
+    """integer -> float with ONE rounding (to nearest, ties to even), as a conversion to `float` is (not via double)"""
+    if n == 0: return 0.0
+    m = abs(n); bl = m.bit_length()
+    if bl > 24:
+        sh = bl - 24
+        q, rem, half = m >> sh, m & ((1 << sh) - 1), 1 << (sh - 1)
+        if rem > half or (rem == half and q & 1): q += 1
+        try: x = float(q) * 2.0 ** sh
+        except OverflowError: x = float('inf')
+        if x >= 2.0 ** 128: x = float('inf')
+    else:
+        x = float(m)
+    return -x if n < 0 else x
+
+
 class Obj:
     n = 0
     def __init__(self, label, kind='heap', q=None):
@@ -400,6 +422,18 @@ class Interp:
         if obj.kind == 'symstr' and len(path) == 1 and isinstance(v, int):
             obj.f[path] = v
             return
+        if len(path) > 1:
+            # a store into one arm of a union ends the lifetime of what the other arms held (C11 6.2.6.1p7, 6.5.2.3 fn 95): their
+            # sub-members become indeterminate, so a later read of a dead arm (a stale `u.binary.l` after `u.constant` was written) is seen
+            usibs = self.p.union_siblings()
+            for k in range(len(path) - 1):
+                nm = path[k]
+                if isinstance(nm, str) and nm in usibs:
+                    dead = {sn for sn, _ in usibs[nm] if sn != nm}
+                    pre = path[:k]
+                    stale = [key for key in obj.f if len(key) > k and key[k] in dead and key[:k] == pre and obj.f[key] is not DEADARM]
+                    for key in stale:
+                        obj.f[key] = DEADARM          # kept (the storage was written, it is not malloc garbage) but no longer a value of that member
         if isinstance(v, StructVal):
             pl = len(path)
             for k in [k for k in obj.f if k[:pl] == path]:
@@ -854,7 +888,7 @@ class Interp:
                 return Ptr(v.obj, v.path)
             return v
         if ck == 'IntegralToFloating':
-            if isinstance(v, int): return float(v)
+            if isinstance(v, int): return int_to_f32(v) if qstr(e['type']).strip() == 'float' else float(v)
             return v
         if ck == 'FloatingToIntegral':
             if isinstance(v, float): return wrap(int(v), e['type'])
